@@ -54,7 +54,7 @@ def match_known(fail, known):
 
 
 def run(pid, tier, profile="mixed", own=None, nops=None, streams_per_cfg=None, extra_streams=None,
-        technique_note=""):
+        technique_note="", k3_programs=None):
     own = own or {pid}
     res = C.Result(pid, tier)
     rng = random.Random(C.seed() * 1000003 + sum(ord(x) for x in pid))
@@ -168,6 +168,18 @@ def run(pid, tier, profile="mixed", own=None, nops=None, streams_per_cfg=None, e
         "streams_with_divergence": len(diffs),
         "oracle_failures": len(fails),
     })
+    if k3_programs:
+        # the property also has a concurrent face: explore the given client programs under the deterministic scheduler
+        import k3
+        out3 = k3.explore(tier, C.seed(), programs=set(k3_programs), with_traces=False)
+        for b in out3["build_errors"]:
+            res.add_broken("K3 harness does not compile against /repo (%s)" % b["config"], b["log"])
+        for f in out3["failures"][:3]:
+            res.add_failing(f)
+        if out3["failures"] and not [b for b in res.broken if "K3" in b["what"]]:
+            res.add_broken("K3 oracle: an explored schedule of a same-key program is not linearizable / breaks the protocol (%s)" % pid)
+        res.cov["k3_executions"] = out3["executions"]
+        res.cov["k3_failures"] = len(out3["failures"])
     res.assumptions += [
         "theorems are about the executable model lean/Cuckoo/Model; K2 ties it to /repo's current headers on every run",
         "helper threads (max_num_worker_threads > 0) are exercised only at the level of results, not layouts",
